@@ -110,6 +110,11 @@ def analyse_conv(ctx, mod, k, s, d, r1, t, findings):
         D = A.denominator * Bc.denominator // gcd(A.denominator, Bc.denominator)
         want = cells.Form("tr", int(A * D), int(Bc * D), D)
         calc = model.common_type(r1, t)
+        # the library's documented rule (quantity_point.hh, IntermediateRep): a signed destination makes the
+        # calculation rep the signed version of the common type, whatever the widths of the two reps
+        if model.INT_TYPES[model.canon(t)][1] and not model.INT_TYPES[model.canon(calc)][1]:
+            calc = "int%d_t" % model.INT_TYPES[model.canon(calc)][0]
+        clo, chi = model.int_range(calc)
         for cell, res in part:
             v = res["v"]
             if res.get("!v") is not None and not isinstance(v, cells.Bad):
@@ -125,8 +130,8 @@ def analyse_conv(ctx, mod, k, s, d, r1, t, findings):
                 ok = True
                 for x in (f, l, cell.example()):
                     exact = A * x + Bc
-                    if not (tlo <= exact <= thi) or not disp_ok:
-                        continue  # true result not representable in the target rep: nothing is claimed
+                    if not (tlo <= exact <= thi) or not disp_ok or not (clo <= x <= chi):
+                        continue  # true result not representable in the target rep (or the input not in the calculation rep): nothing is claimed
                     got = Fraction(v.at(x))
                     tr = Fraction(cells.tdiv(exact.numerator, exact.denominator))
                     if got != tr and got != exact:
@@ -134,7 +139,7 @@ def analyse_conv(ctx, mod, k, s, d, r1, t, findings):
                         findings.append((key + "|value", "point conversion %s: x=%d gives %s, the affine map (x*%s + %s - %s)/%s = %s" % (key, x, got, s.m, s.o, d.o, d.m, exact),
                                          "form on cell %r: %r, expected %r" % (cell, v, want)))
                         break
-                inrange = [x for x in (f, l) if tlo <= A * x + Bc <= thi]
+                inrange = [x for x in (f, l) if tlo <= A * x + Bc <= thi and clo <= x <= chi]
                 if ok and disp_ok and len(inrange) == 2 and not ((v.p, v.q, v.d) == (want.p, want.q, want.d) or v.is_const() and f == l):
                     # same values at three points of a monotone quasi-affine form with another shape
                     if not (v.kind == "aff" and Fraction(v.p, v.d) == A and Fraction(v.q, v.d) == Bc):
@@ -145,7 +150,7 @@ def analyse_conv(ctx, mod, k, s, d, r1, t, findings):
                 bad_x = None
                 for x in (f, l, cell.example()):
                     exact = A * x + Bc
-                    if disp_ok and tlo <= exact <= thi and safe_bound(s, d, x, calc) and safe_bound(s, d, x, r1):
+                    if disp_ok and tlo <= exact <= thi and clo <= x <= chi and safe_bound(s, d, x, calc) and safe_bound(s, d, x, r1):
                         bad_x = x
                 if bad_x is not None:
                     findings.append((key + "|overflow", "point conversion %s: %s at %s for x=%d although the result %s and every intermediate are far inside the reps"
@@ -460,8 +465,14 @@ def body(ctx):
     pairs = libpairs[:(30 if ctx.thorough else 8)] + pairs[:(150 if ctx.thorough else 22)]
     conv_reps = [("int32_t", "int32_t"), ("int64_t", "int64_t"), ("int32_t", "int64_t"), ("uint32_t", "uint32_t"),
                  ("int64_t", "int32_t"), ("double", "double"), ("float", "float"), ("int32_t", "double"), ("double", "int32_t")]
+    # reps of different signedness (round 10, C09j): an unsigned source with a signed destination that is
+    # narrower / as wide / wider, and the reverse direction - the signed calculation rep must not depend on widths
+    sign_reps = [("uint64_t", "int32_t"), ("uint32_t", "int16_t"), ("uint32_t", "int32_t"), ("uint32_t", "int64_t"),
+                 ("int32_t", "uint32_t"), ("uint16_t", "int64_t"), ("uint64_t", "int64_t"), ("int64_t", "uint32_t")]
     if not ctx.thorough:
         conv_reps = conv_reps[:2] + [conv_reps[3], conv_reps[5], conv_reps[6], conv_reps[7]]
+        sign_reps = sign_reps[:3]
+    conv_reps = conv_reps + sign_reps
     prelude = "#include <cstdint>\n#include <type_traits>\n#include \"au/au.hh\"\n" + points.TEMP_HDRS + USING
     gdefs = "\n".join(sorted({u.defs for u in units if u.defs}))
     findings = []
